@@ -88,6 +88,8 @@ def run_variant(F, variant, malleable, n=3, k=2, assets=True, locks_met=True, lo
             return True
         if tr.endswith("ScriptContext") and not callee.get("resolved"):
             return True
+        if locks and callee.get("name") == "max" and "LockTime" in ((callee.get("container") or "") + (callee.get("def") or "")):
+            return True
         return False
     m = Machine(F, strict=False, hooks=hooks, uninterpreted=unint)
     m.vec_seed = lambda ty: [child_sd(F, i, locks) for i in range(ar)] if "SatDissat" in ty else None
